@@ -343,6 +343,10 @@ where
     let mut mode_left = 0usize;
     let mut cur_run = 0u64;
     let end_plan = cfg.n >= 1 && rng.below(16) < cfg.end_near_16;
+    // one steered message in 16 (if long enough) is a "marathon": the adversary keeps the encoder
+    // in the inverted situation for 36..90 consecutive symbols, so that several dozen words are
+    // held back at once (random messages practically never exceed 15)
+    let marathon = cfg.steer_16 > 0 && cfg.n >= 50 && rng.chance(1, 16);
     for i in 0..cfg.n {
         if !hook(run, rng, enc, msg, i) {
             return false;
@@ -366,6 +370,9 @@ where
                 Goal::UpperExact,
             ]);
             mode_left = rng.usize_in(1, 12);
+            if marathon && mode == Goal::EnterOrStay {
+                mode_left = rng.usize_in(36, 90).min(cfg.n - i);
+            }
         }
         let mut choice: Option<(usize, usize)> = None;
         if end_plan && i + 2 == cfg.n {
@@ -378,7 +385,9 @@ where
         }
         if mode_left > 0 {
             mode_left -= 1;
-            let goal = if inv_before > 0 && mode == Goal::EnterOrStay && mode_left == 0 {
+            // (a marathon that lasts to the end of the message may also be sealed as it is)
+            let stay_to_the_end = marathon && i + 1 == cfg.n && rng.bool();
+            let goal = if inv_before > 0 && mode == Goal::EnterOrStay && mode_left == 0 && !stay_to_the_end {
                 // end of a steered run: leave deliberately, by carry or not
                 if rng.bool() {
                     Goal::ExitCarry
